@@ -1,8 +1,14 @@
 (* C12 — Tanimoto, centroid, medoid and bit-packing primitives are exact.
    Statements only; each is closed by [exact <lemma>]. *)
-From BB Require Import Model.Sim Proofs.BitsFacts Proofs.FloatFacts.
-From Coq Require Import Lia.
+From BB Require Import Model.Sim Proofs.BitsFacts.
+From Coq Require Import ZArith List Reals Lia.
+From Flocq Require Import Core BinarySingleNaN.
+From Flocq Require Import IEEE754.PrimFloat.
+From BB Require Import Proofs.FloatFacts Proofs.KernelFacts Proofs.GenTie Gen.GSim.
+Import ListNotations.
 Open Scope Z_scope.
+#[local] Existing Instance Hprec.
+#[local] Existing Instance Hmax.
 
 (* unpacking inverts packing for every feature count *)
 Theorem C12_unpack_pack : forall bits : fpv,
@@ -33,6 +39,54 @@ Theorem C12_centroid_majority : forall ls n, 2 <= n < 2 ^ 53 ->
     Forall (fun k => 0 <= k <= n) ls ->
     centroid_fpv ls n = map (fun k => n <=? 2 * k) ls.
 Proof. exact centroid_majority. Qed.
+
+(* exactness: the correctly rounded quotient |A and B| / |A or B| for a non-empty union,
+   and 0 (a finite value in [0,1]) for an empty one *)
+Theorem C12_tanimoto_exact : forall a b, length a = length b -> Z.of_nat (length a) < 2 ^ 30 ->
+    0 < card (map2 orb a b) ->
+    is_finite (Prim2B (sim_packed (pack a) (pack b))) = true /\
+    B2R (Prim2B (sim_packed (pack a) (pack b))) =
+      rnd64 (IZR (card (andv a b)) / IZR (card (map2 orb a b)))%R.
+Proof. exact sim_packed_exact. Qed.
+Theorem C12_tanimoto_empty_union : forall a b, length a = length b ->
+    Z.of_nat (length a) < 2 ^ 30 -> card (map2 orb a b) = 0 ->
+    sim_packed (pack a) (pack b) = 0%float.
+Proof. exact sim_packed_empty. Qed.
+Theorem C12_range : forall a b, Z.of_nat (length a) < 2 ^ 52 -> Z.of_nat (length b) < 2 ^ 52 ->
+    is_nan_f (sim a b) = false /\ PrimFloat.leb 0 (sim a b) = true /\ PrimFloat.leb (sim a b) 1 = true.
+Proof. exact sim_range. Qed.
+
+(* matrix form = pairwise form *)
+Theorem C12_matrix_entry : forall X i j, (i < length X)%nat -> (j < length X)%nat ->
+    nth j (nth i (sim_matrix_packed X) []) 0%float =
+    if Nat.eqb i j then 1%float
+    else sim_packed (nth (Nat.min i j) X []) (nth (Nat.max i j) X []).
+Proof. exact sim_matrix_entry. Qed.
+Theorem C12_matrix_symmetric : forall X i j, (i < length X)%nat -> (j < length X)%nat ->
+    nth j (nth i (sim_matrix_packed X) []) 0%float = nth i (nth j (sim_matrix_packed X) []) 0%float.
+Proof. exact sim_matrix_sym. Qed.
+
+(* most-dissimilar search: valid indices, similarities to exactly those rows *)
+Theorem C12_most_dissimilar : forall nf Y f1 f2 s1 s2, Y <> [] ->
+    most_dissimilar nf Y = (f1, f2, s1, s2) ->
+    (f1 < length Y)%nat /\ (f2 < length Y)%nat /\
+    s1 = map (fun y => sim y (nth f1 Y [])) Y /\ s2 = map (fun y => sim y (nth f2 Y [])) Y /\
+    f2 = argmin_f s1.
+Proof. exact most_dissimilar_spec. Qed.
+
+(* medoid: a member minimising complementary similarity, first on ties *)
+Theorem C12_medoid : forall nf rows, (3 <= length rows)%nat -> no_nan (compl_isim nf rows) ->
+    let i := medoid_index nf rows in let cs := compl_isim nf rows in
+    (i < length rows)%nat /\
+    (forall j, (j < length rows)%nat -> PrimFloat.ltb (nth j cs 0%float) (nth i cs 0%float) = false) /\
+    (forall j, (j < i)%nat -> PrimFloat.ltb (nth i cs 0%float) (nth j cs 0%float) = true).
+Proof. exact medoid_spec. Qed.
+
+(* centroid_from_sum is the translated source *)
+Theorem C12_source_tie_centroid : forall ls n,
+    GSim.centroid_from_sum ls n false = centroid_vals ls n /\
+    GSim.centroid_from_sum ls n true = centroid_packed ls n.
+Proof. intros; split; [exact (tie_centroid_vals ls n) | exact (tie_centroid_packed ls n)]. Qed.
 
 (* the hypotheses are satisfiable by a non-trivial input *)
 Example C12_nonvacuous :
